@@ -84,7 +84,7 @@ bool ops_archive(Ctx& c, const json& s, int idx, bool& handled) {
 		for (std::size_t i = 0; i < L.size(); ++i) { auto w2 = [&](const std::string& e) { return where("member " + std::to_string(i) + " " + e); };
 			if (v->GetName(i) != Scen::str(L[i]["name"])) { Proto::mismatch(site, "name", w2(v->GetName(i))); return false; } if (v->GetSize(i) != L[i]["size"].get<uint32_t>()) { Proto::mismatch(site, "size", w2("")); return false; } if ((int)v->GetCompressionCode(i) != L[i]["kind"].get<int>()) { Proto::mismatch(site, "kind", w2("")); return false; }
 			std::vector<unsigned char> got; if (throws([&] { auto st = v->OpenStream(i); got = drain(*st); })) { Proto::mismatch(site + "/stream", "refused-should-accept", w2("")); return false; } if (got != raw(L[i]["stored"])) { Proto::mismatch(site + "/stream", "bytes", w2(Scen::hexdiff(got, raw(L[i]["stored"])))); return false; }
-			std::string d = ROOT + "/x" + std::to_string(i); if (throws([&] { v->ExtractFile(i, d); })) { Proto::mismatch(site + "/extract", "refused-should-accept", w2("")); return false; } auto ex = Scen::slurp(d), want = raw(L[i]["plain"]); if (ex != want) { Proto::mismatch(site + (L[i]["kind"].get<int>() == 259 ? "/extract-lzh" : "/extract"), "bytes", w2(Scen::hexdiff(ex, want))); return false; } }
+			std::string d = ROOT + "/x" + std::to_string(i); const int kindCode = L[i]["kind"].get<int>(); if (kindCode == 257 || kindCode == 258) { if (!throws([&] { v->ExtractFile(i, d); })) { Proto::mismatch(site + "/extract-unsupported-kind", "accepted-should-refuse", w2("")); return false; } continue; } if (throws([&] { v->ExtractFile(i, d); })) { Proto::mismatch(site + "/extract", "refused-should-accept", w2("")); return false; } auto ex = Scen::slurp(d), want = raw(L[i]["plain"]); if (ex != want) { Proto::mismatch(site + (L[i]["kind"].get<int>() == 259 ? "/extract-lzh" : "/extract"), "bytes", w2(Scen::hexdiff(ex, want))); return false; } }
 		if (!throws([&] { v->GetName(L.size()); })) { Proto::mismatch(site, "accepted-should-refuse", where("index = count (an unused slot)")); return false; } return true; }
 	// ---- C13, archive clause: member streams, copies of them and archive calls interleaved; every stream keeps its own position ----
 	if (op == "arch_interleave") {
